@@ -23,11 +23,14 @@ EXPLANATION = (
     "15 built-in pandas predicates equal their documented meaning row by row over their option tables; (R4) "
     "report_duplicates maps to keep= first/last/False and reaches both duplicated() calls; (R5) nulls are dropped "
     "before a check only under ignore_na; (R6) every write to / replacement of the working frame inside the parser "
-    "stages is unreachable when all parsing options are off. NOT decided: the biconditional accept(S,D) <=> D |= S "
+    "stages is unreachable when all parsing options are off; (R7) the engine root DataType.check methods compare the "
+    "native type objects themselves (self.type == other.type), never a lossy rendering (str/repr/.name/.kind); (R8) each "
+    "core check reads the data, outside its reporting fields, only through the observers that define its constraint "
+    "(frozen table: nulls via hasnans/isna, duplicates via is_unique/duplicated, dtype via .dtype and dtype.check, ...). NOT decided: the biconditional accept(S,D) <=> D |= S "
     "itself - pandas semantics on data (NaN in duplicated, dtype equality, regex expansion on real labels)."
 )
 LEVEL_RULE = "one obligation per pipeline / (attribute, function) / (check, option row) / write site"
-FLOORS = {"R1": 12, "R2": 25, "R3": 20, "R4": 5, "R5": 2, "R6": 10}
+FLOORS = {"R1": 12, "R2": 25, "R3": 20, "R4": 5, "R5": 2, "R6": 10, "R7": 6, "R8": 12}
 
 PD = "pandera/backends/pandas/builtin_checks.py"
 CONT = "pandera/backends/pandas/container.py::DataFrameSchemaBackend"
@@ -346,7 +349,129 @@ def _callers_guard(ix, f):
     return True, f"every call of self.{f.name} is guarded by a parsing option"
 
 
+LOSSY = {"str", "repr", "hash", "id", "type", "format", "len"}
+LOSSY_ATTRS = {"name", "kind", "char", "__class__", "__name__", "itemsize", "str", "base"}
+ENGINE_ROOTS = ["pandera/engines/pandas_engine.py::DataType", "pandera/engines/polars_engine.py::DataType",
+                "pandera/engines/pyspark_engine.py::DataType"]
+
+
+def r7_dtype_equality(ctx):
+    """The dtype verdict of the engine root DataType.check is equality of the native type objects: every comparison
+    whose two sides are the same expression over `self` and over the other dtype compares the objects themselves,
+    not a lossy rendering (str(), repr(), .name, .kind, type()) under which distinct dtypes coincide."""
+    ix = ctx.ix
+    for cq in ENGINE_ROOTS:
+        cls = ix.cls(cq)
+        f = cls.method("check") if cls is not None else None
+        if f is None:
+            raise AnalysisError(f"{cq}.check not found")
+        ctx.touched(f)
+        other = f.positional[1]
+        twins = []
+        for c in walk_no_nested(f.node):
+            if isinstance(c, ast.Compare) and len(c.ops) == 1 and isinstance(c.ops[0], (ast.Eq, ast.NotEq)):
+                l, r = txt(c.left), txt(c.comparators[0])
+                if ("self" in names_in(c.left) and other in names_in(c.comparators[0])) or \
+                        ("self" in names_in(c.comparators[0]) and other in names_in(c.left)):
+                    twins.append(c)
+        direct = [c for c in twins if {txt(c.left), txt(c.comparators[0])} == {"self.type", f"{other}.type"}]
+        ctx.ob("R7", f, f"{cls.name}.check compares self.type with {other}.type", bool(direct),
+               "native type objects compared with ==" if direct else
+               f"no `self.type == {other}.type` comparison: comparisons found {[txt(c) for c in twins]}; dtypes that differ only in "
+               "their parameters (categories, ordered, storage, time zone) are no longer told apart", f.loc(f.node))
+        for c in twins:
+            bad = None
+            for side in (c.left, c.comparators[0]):
+                for x in ast.walk(side):
+                    if isinstance(x, ast.Call) and callee_last(x) in LOSSY:
+                        bad = f"{callee_last(x)}(...)"
+                    if isinstance(x, ast.Attribute) and x.attr in LOSSY_ATTRS:
+                        bad = f".{x.attr}"
+            ctx.ob("R7", f, f"{cls.name}.check: `{txt(c)[:70]}`", bad is None,
+                   "compares the objects themselves" if bad is None else
+                   f"compares a lossy rendering ({bad}) of the dtypes: distinct dtypes with the same rendering (all CategoricalDtype "
+                   "print as 'category', string[python]/string[pyarrow] as 'string') are accepted for one another", f.loc(c))
+
+
+REPORT_KW = {"message", "failure_cases", "check", "check_output", "original_exc"}
+OBSERVERS = {
+    (ARR, "check_name"): {"name"},
+    (ARR, "check_nullable"): {"hasnans", "isna"},
+    (ARR, "check_unique"): {"is_unique", "duplicated", "to_frame", "index", "arg:type"},
+    (ARR, "check_dtype"): {"dtype", "arg:check"},
+    (CONT, "check_column_names_are_unique"): {"columns"},
+    (CONT, "check_column_presence"): set(),
+    (CONT, "check_column_values_are_unique"): {"duplicated", "in", "arg:type"},
+}
+
+
+def r8_verdict_observers(ctx):
+    """Each core check decides its verdict from the data only through the observers that define its constraint (nulls
+    through hasnans/isna, duplicates through is_unique/duplicated, dtype through .dtype and dtype.check, ...). Any other
+    read of the data object outside the reporting fields (message, failure_cases) is a shortcut that changes which
+    data is accepted."""
+    ix = ctx.ix
+    for (cq, mname), allowed in OBSERVERS.items():
+        f = ix.cls(cq).method(mname)
+        if f is None:
+            raise AnalysisError(f"{cq}.{mname} not found")
+        ctx.touched(f)
+        data = f.positional[1]
+        seen = {}
+
+        def report_ctx(n, report_only):
+            p = parent(n)
+            if isinstance(p, ast.Compare) and all(isinstance(o, (ast.Is, ast.IsNot)) for o in p.ops):
+                return True
+            while p is not None and not isinstance(p, ast.stmt):
+                if isinstance(p, ast.keyword) and p.arg in REPORT_KW:
+                    return True
+                if isinstance(p, ast.JoinedStr):
+                    return True
+                p = parent(p)
+            return isinstance(p, ast.Assign) and all(isinstance(t, ast.Name) and t.id in report_only for t in p.targets)
+
+        # names used for reporting only (greatest fixpoint): every load is in a reporting context
+        report_only = {t.id for st in function_stmts(f) if isinstance(st, ast.Assign) for t in st.targets if isinstance(t, ast.Name)}
+        changed = True
+        while changed:
+            changed = False
+            for n in walk_no_nested(f.node):
+                if isinstance(n, ast.Name) and isinstance(n.ctx, ast.Load) and n.id in report_only and not report_ctx(n, report_only):
+                    report_only.discard(n.id)
+                    changed = True
+        for n in walk_no_nested(f.node):
+            if not (isinstance(n, ast.Name) and n.id == data and isinstance(n.ctx, ast.Load)):
+                continue
+            if report_ctx(n, report_only):
+                continue
+            q = parent(n)
+            if isinstance(q, ast.Attribute):
+                obs = q.attr
+            elif isinstance(q, ast.Subscript) and q.value is n:
+                obs = "[]"
+            elif isinstance(q, ast.Compare):
+                obs = "in" if any(isinstance(o, (ast.In, ast.NotIn)) for o in q.ops) else "cmp"
+            elif isinstance(q, ast.Call):
+                obs = "arg:" + (callee_last(q) or "?")
+            else:
+                obs = type(q).__name__
+            seen.setdefault(obs, n)
+        for obs, n in sorted(seen.items()):
+            ok = obs in allowed
+            ctx.ob("R8", f, f"{f.short} reads the data through `{obs}`", ok,
+                   "an observer of the constraint this check implements" if ok else
+                   f"`{txt(enclosing_stmt(n))[:80]}` makes the verdict of {f.short} depend on `{data}` through `{obs}`, which is not one of the "
+                   f"observers of this constraint ({sorted(allowed)}): data violating the declared constraint can be accepted (or valid data "
+                   "rejected) on that basis", f.loc(n))
+        missing = [o for o in allowed if o not in seen and not o.startswith("arg:type") and o not in ("to_frame", "index")]
+        ctx.ob("R8", f, f"{f.short} observes the data it judges", not missing or not allowed,
+               "all defining observers are read" if not missing else f"never reads the data through {missing}")
+
+
 def run(ctx):
+    r7_dtype_equality(ctx)
+    r8_verdict_observers(ctx)
     r1_wiring(ctx)
     r2_attributes(ctx)
     r3_predicates(ctx)
